@@ -1,5 +1,7 @@
 import Bng.Spec.C08
 import Bng.Spec.C08Names
+import Bng.Spec.C08Locks
 import Bng.Audit
 #audit_module Bng.Spec.C08
 #audit_module Bng.Spec.C08Names
+#audit_module Bng.Spec.C08Locks
